@@ -489,7 +489,20 @@ func (b *builder) txtLine(name string, wild bool, loc string) {
 func (b *builder) auxLine(name, loc string) {
 	var typ int
 	var rd []byte
-	switch b.rng.Intn(3) {
+	switch b.rng.Intn(4) {
+	case 3:
+		// a generic line may also carry a type the compiler has a dedicated line for (the number must stay a number)
+		switch b.rng.Intn(3) {
+		case 0:
+			typ = TTXT
+			rd = append([]byte{7}, "generic"...)
+		case 1:
+			typ = TMX
+			rd = append([]byte{0, 20}, NameWire("mx.example.net")...)
+		default:
+			typ = TPTR
+			rd = []byte(NameWire("ptr.example.net"))
+		}
 	case 0:
 		typ = THINFO
 		rd = append([]byte{3}, "cpu"...)
